@@ -319,3 +319,5 @@ func init() {
 		},
 	})
 }
+
+func stdMarshal(x any) ([]byte, error) { return stdjson.Marshal(x) }
